@@ -34,7 +34,7 @@ ASSUMPTIONS = [
     "tag spelling variants that normalise to one key are merged into one client by design; the tags namespace only demands that every OPERATION "
     "stays on some client and that module/class/attribute names are valid and consistent in number",
 ]
-BOUND = {"quick": "strings<=4 symbols (16105) + keyword table; namespace tuples from strings<=2",
+BOUND = {"quick": "strings<=4 symbols (16105) + keyword table; namespace tuples from strings<=2 in 9 namespaces + 16 invented-name cases + long names (60-180 shared characters)",
          "thorough": "strings<=5 symbols (177156) + keyword table; namespace tuples from strings<=3"}
 
 ALPHA = ["a", "B", "1", "_", "-", " ", "$", "é", "名", "²", "٣"]
